@@ -30,6 +30,8 @@ type runner struct {
 	ioInput lua.LValue
 	ioClose lua.LValue
 	ioTab   lua.LValue
+
+	stateClosed bool
 }
 
 // viaIO: the step is spelt through the default streams (io.input(f) / io.output(f) first)
@@ -125,6 +127,14 @@ func (r *runner) method(h int, name string) (lua.LValue, lua.LValue) {
 	return r.L.GetField(ud, name), ud
 }
 
+// iterArg: an unrelated handle handed to the iterator (to be ignored by it)
+func (r *runner) iterArg(o Op) []lua.LValue {
+	if o.Arg == nil || *o.Arg < 0 || *o.Arg >= len(r.handles) || r.handles[*o.Arg] == lua.LNil {
+		return nil
+	}
+	return []lua.LValue{r.handles[*o.Arg]}
+}
+
 func (r *runner) iterate(it lua.LValue, arg []lua.LValue, k int) Res {
 	var out []Val
 	for i := 0; i < k; i++ {
@@ -179,6 +189,15 @@ func (r *runner) step(o Op) Res {
 			return Res{T: "weird", Note: "snapshot: " + err.Error()}
 		}
 		return Res{T: "bytes", Bytes: encode(b)}
+	case "lclose":
+		// the script ends with files left open: the state's Close is their close
+		r.stateClosed = true
+		L.Close()
+		return Res{T: "true"}
+	case "stdclose":
+		std := L.GetField(r.ioTab, o.Which)
+		vals, err := r.call(L.GetField(std, "close"), std)
+		return shape("close", vals, err)
 	case "iolines":
 		vals, err := r.call(r.ioLines, lua.LString(r.path))
 		if err != nil {
@@ -208,11 +227,11 @@ func (r *runner) step(o Op) Res {
 				case "count":
 					args = append(args, lua.LNumber(f.N))
 				case "line":
-					args = append(args, lua.LString("*l"))
+					args = append(args, lua.LString(map[bool]string{false: "*l", true: "*line"}[f.Long]))
 				case "all":
-					args = append(args, lua.LString("*a"))
+					args = append(args, lua.LString(map[bool]string{false: "*a", true: "*all"}[f.Long]))
 				default:
-					args = append(args, lua.LString("*n"))
+					args = append(args, lua.LString(map[bool]string{false: "*n", true: "*number"}[f.Long]))
 				}
 			}
 		}
@@ -240,13 +259,13 @@ func (r *runner) step(o Op) Res {
 		}
 		// the iterator outlives this step: "next" steps call it again, also after a close
 		r.iters[o.H] = vals
-		return r.iterate(vals[0], vals[1:], o.K)
+		return r.iterate(vals[0], append(vals[1:len(vals):len(vals)], r.iterArg(o)...), o.K)
 	case "next":
 		it, ok := r.iters[o.H]
 		if !ok {
 			return Res{T: "weird", Note: "no iterator was obtained on this handle"}
 		}
-		return r.iterate(it[0], it[1:], o.K)
+		return r.iterate(it[0], append(it[1:len(it):len(it)], r.iterArg(o)...), o.K)
 	case "write":
 		args := []lua.LValue{ud}
 		if o.Via == "io" {
@@ -305,7 +324,6 @@ func execute(in Input) []Res {
 	}
 	defer os.Remove(path)
 	L := lua.NewState()
-	defer L.Close()
 	io := L.GetGlobal("io")
 	r := &runner{L: L, path: path, iters: map[int][]lua.LValue{},
 		ioOpen: L.GetField(io, "open"), ioLines: L.GetField(io, "lines"),
@@ -315,10 +333,13 @@ func execute(in Input) []Res {
 		obs = append(obs, r.step(o))
 	}
 	// whatever the history left open is closed outside the history (its effect is not observed)
-	for _, h := range r.handles {
-		if h != lua.LNil {
-			r.call(L.GetField(h, "close"), h)
+	if !r.stateClosed {
+		for _, h := range r.handles {
+			if h != lua.LNil {
+				r.call(L.GetField(h, "close"), h)
+			}
 		}
+		L.Close()
 	}
 	return obs
 }
@@ -333,6 +354,9 @@ func needsChild(in Input) bool {
 			if f.K == "count" && f.N >= childCount {
 				return true
 			}
+		}
+		if o.T == "stdclose" { // a close that is not refused takes the process's own descriptors
+			return true
 		}
 	}
 	return false
@@ -410,18 +434,14 @@ func matchKF(in Input) []string {
 	// written string begins with 10 while a 13 occurs anywhere.
 	init := decode(in.Init)
 	lineRead, crlf, anyCR, lfFirst := false, hasSeq(init, 13, 10), hasByte(init, 13), false
-	multiNum := false
 	for _, o := range in.Ops {
 		switch o.T {
 		case "lines", "next", "iolines":
 			lineRead = true
 		case "read":
-			for i, f := range o.Fmts {
+			for _, f := range o.Fmts {
 				if f.K == "line" {
 					lineRead = true
-				}
-				if f.K == "num" && i > 0 {
-					multiNum = true
 				}
 			}
 		case "write":
@@ -438,10 +458,6 @@ func matchKF(in Input) []string {
 	}
 	if lineRead && (crlf || (anyCR && lfFirst)) {
 		kf = append(kf, "C19-3")
-	}
-	// C19-11: a read step with two or more formats and "*n" at a position other than the first
-	if multiNum {
-		kf = append(kf, "C19-11")
 	}
 	return kf
 }
